@@ -140,6 +140,26 @@ func ruleCallbackConsumers(c *core.Ctx, want map[string]bool) {
 			if site.Common().IsInvoke() && site.Common().Method.Name() == "Process" {
 				s.SetData("process", "1")
 			}
+			// the nil record handed to a function value (visit(n) before the error is looked at): what that function does
+			// with it is read off the functions the call can reach
+			if callee == nil && !site.Common().IsInvoke() && len(s.Frames) > 0 {
+				for ai, a := range args {
+					if cst, ok := a.(absint.Const); !ok || !cst.Nil {
+						continue
+					}
+					if ai >= len(site.Common().Args) {
+						continue
+					}
+					if pt, ok := site.Common().Args[ai].Type().(*types.Pointer); !ok || !strings.HasSuffix(pt.Elem().String(), ".ParserNode") {
+						continue
+					}
+					for _, g := range calleesOf(c.P, s.Frames[len(s.Frames)-1].Fn, site, c.P.CallGraph()) {
+						if c.P.InScope(g) && derefsParamUnchecked(g, ai) {
+							derefs = append(derefs, c.P.Pos(site.Pos())+" (handed to "+core.FuncName(g)+", which dereferences it)")
+						}
+					}
+				}
+			}
 			// a send of the error on a channel also reports it
 			return nil, false
 		}
@@ -274,6 +294,7 @@ func ruleLineCounter(c *core.Ctx, rule string) {
 	if !requireAnchor(c, rule, "parser.ParseStreamCallback", psc != nil) {
 		return
 	}
+	psc = parserLoopFunc(psc)
 	fname := core.FuncName(psc)
 	n := 0
 	// the constructor calls of the loop itself, and those of the helpers the loop hands the number to
@@ -417,10 +438,12 @@ func ruleLineCounter(c *core.Ctx, rule string) {
 						}
 					}
 				}
-				if !inc.Block().Dominates(call.Block()) || len(inc.Block().Preds) != 1 || inc.Block().Preds[0] != phi.Block() {
+				// (every back edge carries the incremented value, so no line is passed over uncounted; what may come before
+				// the increment is a way out of the loop, such as a cancellation test, not work on the line)
+				if !inc.Block().Dominates(call.Block()) || !phi.Block().Dominates(inc.Block()) {
 					okPhi = false
 					if why == "" {
-						why = "the increment is not the first thing done for every scanned line"
+						why = "the increment does not come before every use of the line number for the scanned line"
 					}
 				}
 				if okPhi {
@@ -693,4 +716,29 @@ func ruleLintVerdict(c *core.Ctx, rule string) {
 	for _, m := range bad {
 		c.Violate(rule, fname, "verdict", c.P.Pos(fn.Pos()), m, nil)
 	}
+}
+
+// derefsParamUnchecked: g reads a field of (or loads through) its parameter idx and never compares it with nil.
+func derefsParamUnchecked(g *ssa.Function, idx int) bool {
+	if idx >= len(g.Params) {
+		return false
+	}
+	prm := g.Params[idx]
+	deref, checked := false, false
+	if prm.Referrers() == nil {
+		return false
+	}
+	for _, r := range *prm.Referrers() {
+		switch t := r.(type) {
+		case *ssa.FieldAddr:
+			deref = deref || t.X == ssa.Value(prm)
+		case *ssa.UnOp:
+			deref = deref || (t.Op == token.MUL && t.X == ssa.Value(prm))
+		case *ssa.BinOp:
+			if t.Op == token.EQL || t.Op == token.NEQ {
+				checked = true
+			}
+		}
+	}
+	return deref && !checked
 }
